@@ -397,6 +397,9 @@ func (p *Prog) loopCallFrame(c *ssa.CallCommon, ld *loopDesc) ([]ssa.Value, bool
 		for i, prm := range sc.Params {
 			names[prm.Name()] = args[i]
 			names[fmt.Sprintf("arg%d", i)] = args[i]
+			if i < len(con.ParamNames) {
+				names[con.ParamNames[i]] = args[i]
+			}
 		}
 		args = nil
 	} else if c.Signature().Recv() != nil && len(args) > 0 {
